@@ -176,7 +176,7 @@ structure KtCase where
   name : Str           -- Kotlin class name: Pascal-cased `id.original`, `_` in front of a digit
   generics : Str       -- the enum's `<A, B>` repeated on every data class
   payload : KtPayload
-  parent : Str         -- `<prefix><enum id.original>` — the super class *reference*
+  parent : Str         -- `<prefix><enum id.renamed>` — the super class *reference* (`fix:` commit 03e02a1)
   parentGenerics : Str
 
 def renderCase (c : KtCase) : Str :=
@@ -204,13 +204,13 @@ def caseFacts (cfg : Cfg) (e : RustEnum) (contentKey : Str) (v : RustEnumVariant
   let gp := genericSuffix e.genericTypes
   let mk (payload : KtPayload) : KtCase :=
     { comments := v.comments, serialName := v.id.renamed, name := variantName v.id.original,
-      generics := gp, payload, parent := cfg.pfx ++ e.id.original, parentGenerics := gp }
+      generics := gp, payload, parent := cfg.pfx ++ e.id.renamed, parentGenerics := gp }
   match v with
   | .unit _ _ => .ok (mk .object)
   | .tuple _ _ ty =>
     (formatType cfg e.genericTypes ty).bind fun t => .ok (mk (.content contentKey t))
   | .anonymousStruct id _ fields =>
-    .ok (mk (.inner contentKey (cfg.pfx ++ e.id.original ++ id.original ++ s%"Inner")
+    .ok (mk (.inner contentKey (cfg.pfx ++ e.id.renamed ++ id.original ++ s%"Inner")
               (genericSuffix (usedGenerics e fields))))
 
 def casesFacts (cfg : Cfg) (e : RustEnum) (contentKey : Str) : List RustEnumVariant → Outcome (List KtCase)
@@ -283,15 +283,15 @@ def structFacts (cfg : Cfg) (rs : RustStruct) : Outcome KtDecl :=
 def valueField (ty : RustType) : RustField :=
   { id := ⟨s%"value", s%"value", false⟩, ty, comments := [], hasDefault := false, decorators := [] }
 
-/-- `write_type_alias` (kotlin.rs:123): the `typealias` is named after `id.original`, the value
-class after `id.renamed` -/
+/-- `write_type_alias` (kotlin.rs:123): the `typealias` and the value class are both named after
+`id.renamed` (the `typealias` since the `fix:` commit b182a80) -/
 def aliasFacts (cfg : Cfg) (a : RustTypeAlias) : Outcome KtDecl :=
   if isInline a.decorators then
     (paramFacts cfg [] false a.isRedacted (valueField a.ty)).bind fun p =>
       .ok (.valueClass a.comments (cfg.pfx ++ a.id.renamed) p a.isRedacted)
   else
     (formatType cfg a.genericTypes a.ty).bind fun ty =>
-      .ok (.typeAlias a.comments (cfg.pfx ++ a.id.original) (genericSuffix a.genericTypes) ty)
+      .ok (.typeAlias a.comments (cfg.pfx ++ a.id.renamed) (genericSuffix a.genericTypes) ty)
 
 /-- `write_types_for_anonymous_structs` with the Kotlin naming closure (kotlin.rs:249-251): the
 helper classes are named `<enum id.renamed><variant id.original>Inner` (and `write_struct` puts the
